@@ -249,9 +249,10 @@ def part_tee(rep: core.Report, tier: str, seed: int, results: list[tuple[dict, t
         if "machinery_error" in r:
             raise tlc.TLCError("tee replay failed: " + r["machinery_error"])
         traces.append({"id": i, "events": r["events"], "params": r["params"]})
-    size = (len(traces) + 3) // 4
+    nparts = 2 if tier == "quick" else 6
+    size = (len(traces) + nparts - 1) // nparts
     tparts = [traces[i:i + size] for i in range(0, len(traces), size)]
-    with ThreadPoolExecutor(max_workers=4) as ex:
+    with ThreadPoolExecutor(max_workers=6) as ex:
         vparts = list(ex.map(lambda kp: tlc.validate_traces("T_Tee", kp[1], tag=f"{PROP}-tee-{kp[0]}",
                                                             chunk=len(kp[1]) + 1), enumerate(tparts)))
     verdicts = [v for part in vparts for v in part]
@@ -313,7 +314,7 @@ def main(tier: str, seed: int) -> int:
     rep.extra["phase_wall_s"] = phases
     rtraces = record_random(rep, tier, seed)                      # B, code side (before any thread exists)
     phases["record_random"] = round(time.time() - t0, 1)
-    nchunks = 3 if tier == "quick" else 12
+    nchunks = 2 if tier == "quick" else 12
     size = (len(rtraces) + nchunks - 1) // nchunks
     rparts = [rtraces[i:i + size] for i in range(0, len(rtraces), size)]
     fn_runs, tee_cfgs = _fn_runs(tier), _tee_cfgs(tier)
